@@ -796,6 +796,10 @@ var reserved = asSet(
 	"bool", "string", "byte", "int", "rune",
 	"iota", "nil", "true", "false",
 	"fmt", "strconv",
+	"any", "append", "cap", "clear", "close", "comparable", "complex", "complex64", "complex128",
+	"copy", "delete", "error", "float32", "float64", "imag", "int8", "int16", "int32", "int64",
+	"len", "make", "max", "min", "new", "panic", "print", "println", "real", "recover",
+	"uint", "uint8", "uint16", "uint32", "uint64", "uintptr",
 
 	// Textmapper-reserved
 	"Token", "Nonterminal", "Pos", "Node", "Offset", "Endoffset", "Start", "End",
